@@ -15,11 +15,11 @@ ASSUME = [
 ]
 
 PROFILES = {
-    'C02': dict(max_steps=5, p_tag=0.15, p_waitfor=0.35, p_deployexpr=0.25, p_enabled=0.2),
-    'C03': dict(max_steps=4, p_tag=0.1, p_multi=0.9, p_error=0.25, p_crash=0.12, p_deployfail=0.12),
-    'C04': dict(max_steps=5, p_tag=0.05, p_enabled=0.5, p_error=0.3, p_crash=0.15, p_deployfail=0.15, p_waitfor=0.3),
+    'C02': dict(max_steps=5, p_tag=0.15, p_waitfor=0.35, p_deployexpr=0.25, p_enabled=0.2, p_sum=0.6),
+    'C03': dict(max_steps=4, p_tag=0.1, p_multi=0.9, p_error=0.25, p_crash=0.12, p_deployfail=0.12, p_sum=0.5),
+    'C04': dict(max_steps=5, p_tag=0.05, p_enabled=0.5, p_error=0.3, p_crash=0.15, p_deployfail=0.15, p_waitfor=0.3, p_stop=0.35),
     'C08': dict(max_steps=4, p_tag=0.2, engine_outputs=True, p_error=0.2, p_crash=0.2, p_deployfail=0.2, p_enabled=0.4),
-    'C15': dict(max_steps=4, p_tag=0.7, p_error=0.25, p_alt=0.2, p_enabled=0.3),
+    'C15': dict(max_steps=4, min_steps=2, p_tag=0.7, p_error=0.25, p_alt=0.2, p_enabled=0.3, p_wait2=0.6, p_deployfail=0.1),
 }
 
 
